@@ -100,6 +100,11 @@ func runC10(c *Ctx) []Violation {
 		panic("harness: generated world rejected: " + trA.SchemaErr + trA.TransformErr)
 	}
 	visA := visibleRecs(w, A)
+	for i, e := range trA.Entries {
+		if e.Class == run.ClsMalformed {
+			return []Violation{viol("C10.aliasing", w.Format+": "+e.Shape, "world: "+w.Name, fmt.Sprintf("result #%d: %s", i+1, e.Shape), fmt.Sprintf("input: %q", string(inA)))}
+		}
+	}
 	c.Ev("A", kA)
 	det := func(extra ...string) []string {
 		d := []string{"world: " + w.Name, "configuration: " + cfg.String(), "schema: " + string(w.Schema), fmt.Sprintf("input A: %q", string(inA))}
